@@ -11,7 +11,7 @@ if r.returncode:
     print("patch does not apply:", r.stderr); sys.exit(3)
 try:
     for p in props:
-        r = subprocess.run(["/venv/bin/python", "sa/run.py", p, "--tier", "quick"], cwd="/verif", capture_output=True, text=True)
+        r = subprocess.run(["/venv/bin/python", "sa/run.py", p, "--tier", "quick"], cwd="/verif", capture_output=True, text=True, env=dict(os.environ, VERIF_SCRATCH_EVIDENCE="1"))
         lines = [l for l in r.stdout.splitlines() if not l.startswith("  rule ")]
         print("== %s rc=%d" % (p, r.returncode))
         print("\n".join(lines[-25:]))
